@@ -23,6 +23,33 @@ impl AbstractInstructionSet {
         data_section: &DataSection,
         level: OptLevel,
     ) -> AbstractInstructionSet {
+        // Verification hook H3: run only the sub-passes named in the environment.
+        #[cfg(fuellabs_sway_verif)]
+        if let (OptLevel::Opt0, Ok(sel)) = (level, std::env::var("SWAY_VERIF_ASM_OPTS")) {
+            let on = |name: &str| sel.split(',').any(|s| s.trim() == name);
+            if on("const_indexing_aggregates") {
+                self = self.const_indexing_aggregates_function(data_section);
+            }
+            if on("constant_propagate") {
+                self = self.constant_propagate(log_nothing);
+            }
+            if on("dce") {
+                self = self.dce();
+            }
+            if on("simplify_cfg") {
+                self = self.simplify_cfg();
+            }
+            if on("remove_sequential_jumps") {
+                self = self.remove_sequential_jumps();
+            }
+            if on("remove_redundant_moves") {
+                self = self.remove_redundant_moves();
+            }
+            if on("remove_redundant_ops") {
+                self = self.remove_redundant_ops(log_nothing);
+            }
+            return self;
+        }
         match level {
             // On debug builds do a single pass through the simple optimizations
             OptLevel::Opt0 => self
